@@ -128,7 +128,7 @@ pub fn arb_pair_with_big(level: u8) -> BoxedStrategy<(M, M)> {
     let sizes: &'static [usize] = if level >= 2 { &[3, 64, 65, 70, 255, 256, 257, 300, 1000, 4096, 65536, 70000] } else { &[3, 64, 65, 70, 100, 255, 256, 257, 300] };
     let pools: &'static [usize] = &[5, 60, 66, 100, 300, 1000, 70001];
     prop_oneof![
-        60 => arb_pair(),
+        400 => arb_pair(),
         1 => (0..sizes.len(), 0..sizes.len(), 0..pools.len(), any::<u16>(), any::<u8>())
             .prop_map(move |(i, j, p, seed, kinds)| big_pair(sizes[i], sizes[j], pools[p], seed, kinds)),
     ]
